@@ -212,7 +212,10 @@ def opt_values(tp, torch, o):
         args = dict(betas=(0.9, 0.99), weight_decay=float(Fraction(o.get("wd", 0))))
         cls = torch.optim.Adam
     sched = {}
-    if o.get("step_size"):
+    if o.get("step_size") and o.get("sched") == "exp":
+        sched = dict(scheduler_class=torch.optim.lr_scheduler.ExponentialLR,
+                     scheduler_args=dict(gamma=float(Fraction(o["gamma"]))), scheduler_frequency=o.get("freq", 1))
+    elif o.get("step_size"):
         sched = dict(scheduler_class=torch.optim.lr_scheduler.StepLR,
                      scheduler_args=dict(step_size=o["step_size"], gamma=float(Fraction(o["gamma"]))),
                      scheduler_frequency=o.get("freq", 1))
@@ -687,7 +690,8 @@ def spec_tokens(case, B):
 def opt_tokens(case):
     o = case["opt"]
     return [q(Fraction(o["lr"])), q(Fraction(o["momentum"])), q(Fraction(o["dampening"])), q(Fraction(o["wd"])),
-            str(o.get("step_size", 0)), q(Fraction(o.get("gamma", 1))), str(o.get("freq", 1))]
+            str(1 if (o.get("step_size") and o.get("sched") == "exp") else o.get("step_size", 0)),   # ExponentialLR = StepLR(step_size=1)
+            q(Fraction(o.get("gamma", 1))), str(o.get("freq", 1))]
 
 
 # ------------------------------------------------------------------------------------------
@@ -727,12 +731,12 @@ def opt_state_of(opt, B):
     return out, [g["lr"] for g in opt.param_groups]
 
 
-def run_impl(case, B=None, extra_callbacks=(), ckpt_path=None, N=None):
+def run_impl(case, B=None, extra_callbacks=(), ckpt_path=None, N=None, trainer_kw=None):
     """trainer.fit on freshly built objects, recording the learnable state after every step"""
     import pytorch_lightning as pl
     B = B or build(case)
     torch = B.torch
-    rec = dict(traj=[snapshot(B)], tens=[tensor_snapshot(B)], logged=[], grad_mode=[], steps=[])
+    rec = dict(traj=[snapshot(B)], tens=[tensor_snapshot(B)], logged=[], grad_mode=[], steps=[], lrs=[])
 
     class Rec(pl.Callback):
         def on_train_batch_start(self, trainer, pl_module, batch, batch_idx):
@@ -742,11 +746,12 @@ def run_impl(case, B=None, extra_callbacks=(), ckpt_path=None, N=None):
             rec["traj"].append(snapshot(B))
             rec["tens"].append(tensor_snapshot(B))
             rec["steps"].append((batch_idx, trainer.global_step))
+            rec["lrs"].append(trainer.optimizers[0].param_groups[0]["lr"])      # learning rate in force after this step
             v = trainer.logged_metrics.get("train/loss")
             rec["logged"].append(None if v is None else float(v))
 
     N = case["N"] if N is None else N
-    tr = make_trainer(B, case, N, callbacks=[Rec()] + list(extra_callbacks))
+    tr = make_trainer(B, case, N, callbacks=[Rec()] + list(extra_callbacks), **(trainer_kw or {}))
     try:
         tr.fit(B.solver, ckpt_path=ckpt_path)
     except Exception as e:  # the implementation refused / crashed: reported by the caller
@@ -784,7 +789,7 @@ def run_reference(case, N=None, B=None):
         sched = B.sched["scheduler_class"](opt, **B.sched["scheduler_args"])
     freq = B.sched.get("scheduler_frequency", 1) if B.sched else 1
     N = case["N"] if N is None else N
-    rec = dict(traj=[snapshot(B)], tens=[tensor_snapshot(B)], losses=[])
+    rec = dict(traj=[snapshot(B)], tens=[tensor_snapshot(B)], losses=[], lrs=[])
     try:
         for j in range(N):
             opt.zero_grad()
@@ -797,7 +802,7 @@ def run_reference(case, N=None, B=None):
             if sched is not None and (j + 1) % freq == 0:
                 sched.step()
             rec["traj"].append(snapshot(B)); rec["tens"].append(tensor_snapshot(B))
-            rec["losses"].append(float(total))
+            rec["losses"].append(float(total)); rec["lrs"].append(opt.param_groups[0]["lr"])
     except RuntimeError as e:
         # only seen when objects are re-used across fits: a DeepONet caches its branch evaluation under the
         # iteration number, a second loop that starts again at the same number hits the stale autograd graph
@@ -963,7 +968,7 @@ def gen_case_rat(rng, Nmax=8):
                        dampening=rng.choice(["0", "1/4"]) if mom != "0" else "0",
                        wd=rng.choice(["0", "0", "1/8"]),
                        step_size=rng.choice([0, 0, 1, 2, 3]), gamma=rng.choice(["1/2", "1/4", "3/4"]),
-                       freq=rng.choice([1, 1, 2]))
+                       freq=rng.choice([1, 1, 2, 3, 5]), sched=rng.choice(["step", "step", "exp"]))
     return case
 
 
@@ -1014,7 +1019,8 @@ def gen_case_torch(rng, Nmax=8):
     if rng.random() < 0.7:
         case["opt"] = dict(kind="adam", lr=rng.choice(["1/8", "1/64", "1/1024"]), wd=rng.choice(["0", "0", "1/16"]),
                            momentum="0", dampening="0",
-                           step_size=rng.choice([0, 1, 2]), gamma=rng.choice(["1/2", "9/10"]), freq=rng.choice([1, 2]))
+                           step_size=rng.choice([0, 1, 2]), gamma=rng.choice(["1/2", "9/10"]), freq=rng.choice([1, 2, 3, 7]),
+                           sched=rng.choice(["step", "exp"]))
     else:
         case["opt"] = dict(kind="sgd", lr=rng.choice(["1/8", "1/32"]), momentum=rng.choice(["0", "9/10"]), dampening="0",
                            wd="0", step_size=rng.choice([0, 2]), gamma="1/2", freq=1)
@@ -1065,6 +1071,13 @@ def judge(rep, case, B, rec, Bref, ref, reply):
     if "error" in ref:
         rep.count("reference-loop-raises(not judged)")
         return
+    # ---- oracle 0: learning-rate history = the positions at which the scheduler was stepped
+    for j, (a, b) in enumerate(zip(rec["lrs"], ref["lrs"])):
+        if a != b:
+            rep.fail(f"learning rate in force after step {j + 1}: {a} through the Solver, {b} in the plain loop that steps the configured "
+                     f"scheduler after every {case['opt'].get('freq', 1)}-th step (first difference of the lr histories)", case,
+                     detail=dict(step=j + 1, solver_lr=a, reference_lr=b))
+            break
     # ---- oracle 1: the reference loop of the property text, bit-exact after every step
     d = first_tensor_diff(rec["tens"], ref["tens"])
     if d is not None:
@@ -1113,6 +1126,24 @@ def judge(rep, case, B, rec, Bref, ref, reply):
         return
     if reply.startswith("err") or reply.startswith("bad-op"):
         rep.disagree("drivers/C07.lean `traj` rejected a set-up the implementation trains", case, "trained", reply)
+        return
+    if case.get("long"):
+        parts = [x.strip() for x in reply.split(" | ")]
+        reg = [int(t) for t in parts[0].split()]
+        final = [Fraction(t) for t in parts[1].split()]
+        mlrs = [Fraction(t) for t in parts[2].split()]
+        rep.count("long-run"); rep.count(f"long-run:freq={case['opt']['freq']}")
+        for j, (a, b) in enumerate(zip(rec["lrs"], mlrs)):
+            if not abs(a - float(b)) <= 1e-12 * float(b):
+                rep.disagree("learning-rate history: Lean `sgd` (scheduler stepped when the global step count is a multiple of the "
+                             "frequency) vs trainer.fit", case, dict(step=j + 1, lr=a), dict(step=j + 1, lr=float(b)))
+                return
+        scale = max([1.0] + [abs(float(v)) for v in final])
+        for i, v in zip(reg, final):
+            if not abs(rec["traj_final"][i] - float(v)) <= 1e-7 * scale:
+                rep.disagree(f"state after {N} steps: Lean `solverRun` (exact) vs trainer.fit (float64)", case,
+                             dict(tensor=B.names[i], value=rec["traj_final"][i]), dict(value=float(v)))
+                return
         return
     reg, steps, info = parse_traj(reply, N)
     impl_reg = set()
@@ -1169,6 +1200,8 @@ def tame(case, budget=2000):
 
 
 def model_request(case, B):
+    if case.get("long"):
+        return " ".join(["lrhist", str(case["N"])] + opt_tokens(case) + spec_tokens(case, B))
     return " ".join(["traj", str(case["N"]), "1" if case.get("sanity") else "0", str(case.get("val_every", 0))]
                     + opt_tokens(case) + spec_tokens(case, B))
 
@@ -1309,9 +1342,28 @@ def judge_history(rep, case, res):
                     return
 
 
+def gen_long_case(rng, lo=1100, hi=2100):
+    """ONE cheap long run that crosses the round numbers inside the Solver / trainer (the dummy data loader, epochs
+    of 1000): one or two parameters, a static point set, a scheduler whose frequency does not divide round numbers"""
+    case = dict(channel="rat", long=True, params=[], val=[], sanity=False, val_every=0)
+    case["models"] = [dict(kind="poly", init=[dy(rng, -1, 1)] + ([dy(rng, -1, 1)] if rng.random() < 0.5 else []))]
+    case["train"] = [dict(kind="pinn", weight=rng.choice(["1/2", "3/4", "1"]), model=0, res="lin", sets=[gen_points(rng, 2)],
+                          static=True, c=[dy(rng, -1, 1, 4), dy(rng, -1, 1, 4), "0"], track=False)]
+    freq = rng.choice([7, 64, 300, 999, 1001, 1100])
+    # long enough that "every freq-th step of the whole run" and "every freq-th batch of an epoch of 1000" differ
+    need = {7: 1100, 64: 1100, 300: 1300, 999: 2000, 1001: 1100, 1100: 1150}[freq]
+    case["N"] = max(rng.randint(lo, hi), need)
+    case["opt"] = dict(kind="sgd", lr=rng.choice(["1/8", "1/16"]), momentum=rng.choice(["0", "1/2"]), dampening="0", wd="0",
+                       step_size=max(1, case["N"] // (freq * 20)),    # about 20 decays over the run, none invisible for long
+                       gamma=rng.choice(["1/2", "3/4"]), freq=freq, sched="step")
+    return case
+
+
 def gen_cases(ctx):
     rng = ctx.rng
     cases = []
+    for _ in range(ctx.scale(1, 6)):
+        cases.append(gen_long_case(rng, 1100, ctx.scale(1500, 3300)))
     for _ in range(ctx.scale(30, 300)):
         cases.append(gen_history(rng, rng.choice(["rat", "torch"])))
     for _ in range(ctx.scale(100, 1000)):
@@ -1348,20 +1400,24 @@ def run(ctx, rep, cases=None):
         B, rec = run_impl(case)
         Bref, ref = run_reference(case)
         line = model_request(case, build(case)) if case["channel"] == "rat" else None
-        refline = ref_request(case, build(case)) if case["channel"] == "rat" else None
+        refline = ref_request(case, build(case)) if case["channel"] == "rat" and not case.get("long") else None
         done.append((case, B, rec, Bref, ref, line, refline))
-    lines = [d[5] for d in done if d[5]] + [d[6] for d in done if d[6]]
-    n_rat = len([d for d in done if d[5]])
+    lines, pos = [], {}
+    for i, d in enumerate(done):
+        if d[5]:
+            pos[(i, 0)] = len(lines); lines.append(d[5])
+        if d[6]:
+            pos[(i, 1)] = len(lines); lines.append(d[6])
     failure = None
     try:
         replies = common.run_driver("C07", lines)
     except common.DriverFailure as e:
         replies, failure = None, e
-    k = 0
-    for case, B, rec, Bref, ref, line, refline in done:
+    for i, (case, B, rec, Bref, ref, line, refline) in enumerate(done):
         reply = refreply = None
-        if line and replies is not None:
-            reply, refreply = replies[k], replies[n_rat + k]; k += 1
+        if replies is not None:
+            reply = replies[pos[(i, 0)]] if (i, 0) in pos else None
+            refreply = replies[pos[(i, 1)]] if (i, 1) in pos else None
         moved = "error" not in rec and rec["traj"][0] != rec["traj"][-1]
         rep.case(case, case["N"] >= 2 and moved,
                  sample=dict(case=describe(case), final_state={B.names[i]: v for i, v in list(rec["traj"][-1].items())[:6]} if "error" not in rec else rec["error"],
